@@ -376,6 +376,9 @@ static void base64_decode(xmpp_ctx_t *ctx,
         }
         if (hextet > 64)
             goto _base64_decode_error;
+        /* padding is only valid at the end of the last quartet */
+        if (i < len && (i + 4 != len || dlen % 3 == 0))
+            goto _base64_decode_error;
         /* handle the remainder */
         switch (dlen % 3) {
         case 0:
